@@ -161,4 +161,33 @@ theorem emit_ofRegion_rest (r bs : Bytes) : (emit (OutCursor.ofRegion r) bs).res
 theorem emit_ofRegion_size (r bs : Bytes) : (emit (OutCursor.ofRegion r) bs).size = r.length - bs.length := by
   simp [emit, OutCursor.ofRegion]
 
+
+/-! ### a stream over a concatenation: reading the first part leaves a stream over the rest -/
+
+theorem ofBytes_read_append (a rest : Bytes) :
+    (Cursor.ofBytes (a ++ rest)).read a.length = .ok (a, Cursor.ofBytes rest) := by
+  unfold Cursor.read Cursor.canRead Cursor.ofBytes
+  simp
+
+theorem ofBytes_readBE_append (a rest : Bytes) :
+    (Cursor.ofBytes (a ++ rest)).readBE a.length = .ok (Cursor.beNat a, Cursor.ofBytes rest) := by
+  unfold Cursor.readBE
+  rw [ofBytes_read_append]; rfl
+
+theorem ofBytes_skip_append (a rest : Bytes) :
+    (Cursor.ofBytes (a ++ rest)).skip a.length = .ok (Cursor.ofBytes rest) := by
+  unfold Cursor.skip Cursor.ofBytes
+  simp
+
+theorem ofBytes_peek_append (site : String) (a rest : Bytes) :
+    (Cursor.ofBytes (a ++ rest)).peek site 0 a.length = .ok a := by
+  unfold Cursor.peek rdN Cursor.ofBytes
+  simp
+
+theorem ofBytes_canRead_append (a rest : Bytes) : (Cursor.ofBytes (a ++ rest)).canRead a.length = true := by
+  simp [Cursor.canRead, Cursor.ofBytes]
+
+theorem ofBytes_toBool (b : Bytes) : (Cursor.ofBytes b).toBool = !b.isEmpty := by
+  cases b <;> simp [Cursor.toBool, Cursor.ofBytes]
+
 end Tins.Wire.App
